@@ -971,6 +971,24 @@ def encode_model(s, encoding):
                 lo, hi = mkbyte(z3.Extract(7, 0, u)), mkbyte(z3.Extract(15, 8, u))
             out.extend((lo, hi) if _UTF16[enc] == "little" else (hi, lo))
         return SBytes(out)
+    if enc in ("utf-8", "utf8", "utf_8"):
+        out = []
+        for u in items:
+            if _real_type(u) is int:
+                out.extend(chr(u).encode("utf-8"))
+                continue
+            ENGINE.assume(z3.Not(_is_surrogate(u)), "wchar units restricted to non-surrogate BMP code units")
+            w = z3.ZeroExt(16, u)
+            if ENGINE.decide(z3.ULT(u, z3.BitVecVal(0x80, 16))):
+                out.append(mkbyte(z3.Extract(7, 0, u)))
+            elif ENGINE.decide(z3.ULT(u, z3.BitVecVal(0x800, 16))):
+                out.append(mkbyte(z3.Extract(7, 0, 0xC0 | z3.LShR(w, 6))))
+                out.append(mkbyte(z3.Extract(7, 0, 0x80 | (w & 0x3F))))
+            else:
+                out.append(mkbyte(z3.Extract(7, 0, 0xE0 | z3.LShR(w, 12))))
+                out.append(mkbyte(z3.Extract(7, 0, 0x80 | (z3.LShR(w, 6) & 0x3F))))
+                out.append(mkbyte(z3.Extract(7, 0, 0x80 | (w & 0x3F))))
+        return SBytes(out)
     if enc in ("latin-1", "latin1", "iso-8859-1"):
         out = []
         for u in items:
@@ -1164,6 +1182,8 @@ class SymStream:
         if _real_type(off) in (SInt, SInst):
             t, lo, hi = _iv(off)
             end = _real_len(self.data)
+            if hi > (1 << 63) - 1 and ENGINE.decide(t > (1 << 63) - 1):
+                raise OverflowError("Python int too large to convert to C ssize_t")  # as io.BytesIO.seek does
             if whence == 0 and hi > end and ENGINE.decide(t > end):
                 # every position beyond the end behaves alike for reading (empty reads)
                 self.pos = end + 1
